@@ -181,8 +181,9 @@ func checkDelivery(run *Run, prop, who string, want []Msg, obs []Obs, term strin
 		}
 		exp := w.Payload
 		if o.JSON {
-			// both sides canonicalised by the caller
-			exp = w.Payload
+			// WriteJSON terminates the document with a newline; the decoded
+			// value is compared in canonical (re-marshalled) form
+			exp = bytes.TrimRight(w.Payload, "\n")
 		}
 		switch {
 		case o.Complete:
